@@ -94,6 +94,8 @@ pub fn check_header(spec: &MsgHeaderSpec) -> Check {
     // type mapping
     let t = no_panic("message_type", || h.message_type())?;
     ensure_eq!(t, expected_type(spec.mtype), "type-map", "code {}", spec.mtype);
+    // ... and as the variant itself (Debug rendering), not only through the type's own PartialEq
+    ensure_eq!(format!("{:?}", t), format!("{:?}", expected_type(spec.mtype)), "type-map", "code {} (variant compared by its Debug rendering)", spec.mtype);
 
     // channel mapping on its defined domain
     if let Some((_, name)) = CHANNELS.iter().find(|(c, _)| *c == spec.channel) {
